@@ -21,7 +21,7 @@ def status_e9():
     """E9 for `StatusCode::X` (external associated consts cannot be specified): stub returns the constant"""
     out = []
     for n, c in STATUS.items():
-        out.append(("StatusCode::" + n, "all", "", "", "hyper::StatusCode", "    ensures status_code(r) == %d," % c,
+        out.append(("StatusCode::" + n, "all", "", "", "hyper::StatusCode", "    ensures status_code(r) == %d, r == status_const(%d)," % (c, c),
                     dict(name="vx_e9_status_" + n.lower(), optional=True, body="hyper::StatusCode::" + n)))
     return out
 
@@ -100,9 +100,9 @@ def build(u):
             with u.impl_(asw, "AgentStatusSharedState"):
                 u.take_fn(asw, "AgentStatusSharedState::increase_connection_count", external_body=True)
                 u.take_fn(asw, "AgentStatusSharedState::add_one_connection_summary", external_body=True, ghost="Tracked(tr): Tracked<&mut HTrace>",
-                          contract="        ensures final(tr).failed == old(tr).failed,\n")
+                          contract="        ensures final(tr).failed == old(tr).failed, final(tr).decisions == old(tr).decisions,\n")
                 u.take_fn(asw, "AgentStatusSharedState::add_one_failed_connection_summary", external_body=True, ghost="Tracked(tr): Tracked<&mut HTrace>",
-                          contract="        ensures final(tr).failed == old(tr).failed.push(fail_ev_of(summary)),\n")
+                          contract="        ensures final(tr).failed == old(tr).failed.push(fail_ev_of(summary)), final(tr).decisions == old(tr).decisions,\n")
         with u.mod("provision_wrapper"):
             u.placeholder_ext(prw, ["ProvisionSharedState"], "vx_ph_prw")
         with u.mod("redirector_wrapper"):
@@ -131,8 +131,10 @@ def build(u):
             _ => Ok(None),
         }),
 """)
-            u.take_fn(pa, "authorize", external_body=True, contract="""
+            u.take_fn(pa, "authorize", external_body=True, ghost="Tracked(tr): Tracked<&mut HTrace>", contract="""
         ensures r == auth_table(endpoint_of(ip@, port), claims.runAsElevated, rule_view(access_control_rules, request_uri, claims)),
+                final(tr).decisions == old(tr).decisions.push(r), final(tr).failed == old(tr).failed,   // ghost record of the decision
+                *final(logger) == *old(logger),
 """)
         with u.mod("proxy_connection", uses="use crate::common::error::{Error, HyperErrorType};\nuse crate::common::hyper_client;\nuse crate::common::result::Result;\nuse crate::proxy::Claims;\nuse http_body_util::Full;\nuse hyper::body::Bytes;\nuse hyper::Request;\nuse log::Level as LoggerLevel;\nuse std::net::{Ipv4Addr, SocketAddr};\nuse std::sync::Arc;\nuse std::time::Instant;\nuse tokio::sync::Mutex;\nuse crate::shared_state::key_keeper_wrapper::KeyKeeperSharedState;"):
             u.take(pc, "RequestBody", "type")
@@ -198,6 +200,7 @@ def build(u):
             final(http_connection_context).id == old(http_connection_context).id, final(http_connection_context).url == old(http_connection_context).url,
             final(http_connection_context).method == old(http_connection_context).method, final(http_connection_context).now == old(http_connection_context).now,
             final(http_connection_context).tcp_connection_context == old(http_connection_context).tcp_connection_context,
+            final(tr).decisions == old(tr).decisions,
             !log_authorize_failed ==> final(tr).failed == old(tr).failed,   // @C11.log_connection_summary.only_denials_recorded
             log_authorize_failed ==> final(tr).failed.len() == old(tr).failed.len() + 1 && final(tr).failed.drop_last() == old(tr).failed,  // @C11.log_connection_summary.exactly_one_occurrence
             log_authorize_failed && old(http_connection_context).tcp_connection_context.claims is Some && old(http_connection_context).tcp_connection_context.destination_ip is Some
@@ -230,7 +233,7 @@ def build(u):
                           ],
                           contract="""
         ensures
-            final(tr).failed == old(tr).failed,     // @C11.forward_response.records_no_denial
+            final(tr).failed == old(tr).failed, final(tr).decisions == old(tr).decisions,     // @C11.forward_response.records_no_denial
             r is Ok,
             proxy_response matches Ok(up) ==> {
                 &&& resp_status(r->Ok_0) == resp_status(up)       // @C14.forward_response.status_unchanged
@@ -271,12 +274,14 @@ proof {
                           contract="""
         requires
             may_relay(http_connection_context.tcp_connection_context, http_connection_context.url, self.key_keeper_shared_state),  // @C01.handle_request_with_signature.only_attributed_and_authorized
-            req_method(request) == orig.method, req_uri(request) == orig.uri, body_bytes(req_body(request)) == orig.body,
-            proxy_headers_ok(hm_view(req_headers(request)), orig.elevated),
-            client_headers_kept(hm_view(req_headers(request)), orig.headers0),
-            auth_unsigned(hm_view(req_headers(request)), orig.headers0),
+            req_method(request) == orig.method,   // @C14.handle_request_with_signature.method_unchanged
+            req_uri(request) == orig.uri,         // @C14.handle_request_with_signature.uri_unchanged
+            body_bytes(req_body(request)) == orig.body,   // @C14+C15.handle_request_with_signature.body_is_the_clients
+            proxy_headers_ok(hm_view(req_headers(request)), orig.elevated),    // @C05.handle_request_with_signature.exactly_one_claims_and_one_date_header_from_the_proxy
+            client_headers_kept(hm_view(req_headers(request)), orig.headers0), // @C14.handle_request_with_signature.client_headers_unchanged
+            auth_unsigned(hm_view(req_headers(request)), orig.headers0),       // @C05.handle_request_with_signature.authorization_header_not_yet_touched
         ensures
-            final(tr).failed == old(tr).failed,     // @C11.handle_request_with_signature.records_no_denial
+            final(tr).failed == old(tr).failed, final(tr).decisions == old(tr).decisions,     // @C11.handle_request_with_signature.records_no_denial
             r is Ok,
 """)
 
@@ -285,7 +290,8 @@ proof {
                           e9=[("body.collect().await", None, "body: Limited<Incoming>", "body", "core::result::Result<VxCollected, VxCollectError>", """
     ensures (r matches Ok(d) ==> body_bytes(body) == Some(collected_view(d))),
             (r is Err ==> body_bytes(body) is None),""",
-                               dict(name="vx_e9_collect_limited", local=True, is_async=True, body="match body.collect().await { Ok(c) => Ok(VxCollected(c)), Err(e) => Err(VxCollectError(e)) }"))],
+                               dict(name="vx_e9_collect_limited", local=True, is_async=True, body="match body.collect().await { Ok(c) => Ok(VxCollected(c)), Err(e) => Err(VxCollectError(e)) }")),
+                              ("Error::Hyper(HyperErrorType::RequestBody(e.to_string()))", None, "e: &VxCollectError", "&e", "Error", "", dict(name="vx_e9_request_body_error", local=True))],
                           contract="""
         ensures r matches Ok(q) ==> req_method(q) == req_method(request) && req_uri(q) == req_uri(request) && req_headers(q) == req_headers(request)
                     && body_bytes(req_body(request)) == Some(full_view(req_body(q))),   // @C14+C15.convert_request.whole_body_within_limit_or_error
@@ -296,6 +302,7 @@ proof {
                           ghost="Tracked(tr): Tracked<&mut HTrace>",
                           ghost_calls=[("log_connection_summary", "all", "Tracked(tr)"),
                                        ("forward_response", None, "Tracked(tr)"),
+                                       ("authorize", None, "Tracked(tr)"),
                                        ("handle_request_with_signature", None, "Ghost(orig), Tracked(tr)"),
                                        ("send_request", None, "Ghost(self.key_keeper_shared_state), Ghost(orig)")],
                           pre_body="""broadcast use group_http_fmt, axiom_fmt_error, axiom_key_view_hn, axiom_fmt_serde_error, axiom_fmt_socketaddr, axiom_fmt_ipv4, axiom_to_string_ipv4;
@@ -317,14 +324,21 @@ let ghost orig = fwd_spec_of(request, if tcp_connection_context.claims is Some {
                           contract="""
         ensures
             r is Ok,
-            // C01: a request that may not be relayed is answered with the statement's error status and an empty body
+            // C01: a request that may not be relayed is answered with one of the statement's error statuses and an empty body
             !is_provision_query(req_uri(request)) && !may_relay(tcp_connection_context, req_uri(request), self.key_keeper_shared_state) ==>
                 body_is_empty(resp_body(r->Ok_0)) && (status_code(resp_status(r->Ok_0)) == 500
-                    || status_code(resp_status(r->Ok_0)) == refusal_status(tcp_connection_context, req_uri(request), self.key_keeper_shared_state)),  // @C01.handle_new_http_request.refused_with_404_421_500_403
-            // C11: every denial (enforce or audit) adds exactly one occurrence, an allowed request none
-            reaches_authorization(tcp_connection_context, req_uri(request), self.key_keeper_shared_state) && final(tr).failed != old(tr).failed ==>
-                auth_result(tcp_connection_context, req_uri(request), self.key_keeper_shared_state) != AuthorizeResult::Ok,   // @C11.handle_new_http_request.allowed_request_records_nothing
-            final(tr).failed == old(tr).failed || (final(tr).failed.len() == old(tr).failed.len() + 1 && final(tr).failed.drop_last() == old(tr).failed
-                && tcp_connection_context.claims is Some && tcp_connection_context.destination_ip is Some
-                && final(tr).failed.last() == denial_event(tcp_connection_context, vx_status_forbidden())),   // @C11.handle_new_http_request.at_most_one_occurrence_under_callers_identity
+                    || status_code(resp_status(r->Ok_0)) == refusal_status(tcp_connection_context, req_uri(request), self.key_keeper_shared_state)
+                    || (status_code(resp_status(r->Ok_0)) == 421 && !contains_sub(uri_path(req_uri(request)), ".."@))),  // @C01.handle_new_http_request.refused_with_404_421_500_403
+            // C11: at most one authorization decision is taken per request, it is the declared one, and it is recorded
+            // in the failed-authorization summary exactly once iff it is a denial (enforce: Forbidden, audit: OkWithAudit)
+            final(tr).decisions == old(tr).decisions || (final(tr).decisions.len() == old(tr).decisions.len() + 1
+                && final(tr).decisions.drop_last() == old(tr).decisions
+                && reaches_authorization(tcp_connection_context, req_uri(request), self.key_keeper_shared_state)
+                && final(tr).decisions.last() == auth_result(tcp_connection_context, req_uri(request), self.key_keeper_shared_state)),  // @C11.handle_new_http_request.decision_is_the_declared_one
+            final(tr).decisions != old(tr).decisions && final(tr).decisions.last() == AuthorizeResult::Ok ==> final(tr).failed == old(tr).failed,   // @C11.handle_new_http_request.allowed_request_records_nothing
+            final(tr).decisions != old(tr).decisions && final(tr).decisions.last() != AuthorizeResult::Ok ==>
+                final(tr).failed.len() == old(tr).failed.len() + 1 && final(tr).failed.drop_last() == old(tr).failed
+                && final(tr).failed.last() == denial_event(tcp_connection_context, status_const(403)),   // @C11.handle_new_http_request.every_denial_recorded_exactly_once_under_callers_identity
+            final(tr).decisions != old(tr).decisions && final(tr).decisions.last() == AuthorizeResult::Forbidden ==>
+                status_code(resp_status(r->Ok_0)) == 403 && body_is_empty(resp_body(r->Ok_0)),   // @C11.handle_new_http_request.enforce_answers_403
 """)
